@@ -3,7 +3,16 @@
    is in /repo after `fix:` 343ebf8; reference checks as after the dotted-reference `fix:`) on configuration `c`, with
    the Go maps iterated in order `o`, entered with the caller's ApplicationContext in state `a` (fresh, constructed with
    ConfigurationValid already true, or re-used after earlier Start calls).  `start_old` carries the handler of the
-   unchanged tree. *)
+   unchanged tree.
+   How to read these theorems (audit D, C19): `requirements` lists, site by site, the checks that the Configure functions of
+   /repo make (file:line at each `site`), quirks included — a client certificate is only loaded when a CA file is named, a
+   client-profile may name a tls/sasl profile that does not exist.  `refuse_iff_invalid` / `configure_iff_valid` therefore say
+   that the first-failure scans, under every map order, together with the recover handler, the start loop and the socket
+   accounting, implement exactly that flat list — they are consistency + control-flow theorems and cannot reveal a check
+   the code forgot.  The independent judgement "this edit violates a DOCUMENTED requirement" is the `inv` flag of each edit
+   of the catalogue in checks/configgen.py, cross-checked against `requirements` on every run (design_notes/C19.md).
+   "Every configuration" means every value of the record `config` (the keys the catalogue knows, incl. the integer options
+   that size something at start time: workers, queue-depth, the cluster refresh periods). *)
 From Coq Require Import List ZArith Permutation.
 From Burrow Require Import ConfigValid ConfigValidProofs.
 Import ListNotations.
@@ -18,10 +27,20 @@ Theorem C19_refuse_iff_invalid : forall (o : order) (c : config) (a : app_state)
 Proof. exact refuse_iff_invalid. Qed.
 Print Assumptions C19_refuse_iff_invalid.
 
-(* No configuration at all makes a panic leave Start (not even with an inconsistent order argument). *)
+(* No value of the configuration record makes a panic leave Start (not even with an inconsistent order argument): the
+   panics of every Configure are recovered, and — next theorem — a configuration that every Configure accepted does not
+   make any coordinator's Start panic (storage: make([]chan, workers); cluster: time.NewTicker(refresh) — both refused in
+   Configure since 746d605 / 4350030; before, these panics left Start: examples C19_old_workers / C19_old_refresh below).
+   Not covered: options outside the record, and crashes AFTER start-up (intervals <= 0, notifier interval <= 0: observations). *)
 Theorem C19_start_never_panics : forall (o : order) (c : config) (a : app_state) (p : panic), start o c a <> Panicked p.
 Proof. exact start_never_panics. Qed.
 Print Assumptions C19_start_never_panics.
+
+Theorem C19_start_accepted_no_panic : forall (o : order) (c : config),
+  configure_all o c = None ->
+  forall (k : coord) (p : panic), In k (coordinators c) -> start_coord o c k <> StartPanic p.
+Proof. exact start_accepted_no_panic. Qed.
+Print Assumptions C19_start_accepted_no_panic.
 
 (* Acceptance: every requirement holds <-> ConfigurationValid is set afterwards ... *)
 Theorem C19_accept_iff_valid : forall (o : order) (c : config) (a : app_state),
@@ -163,3 +182,19 @@ Example C19_example_listening :
     = no_listener /\
   listener_names ex_bad_depth = [3].
 Proof. exact listening_while_running. Qed.
+
+(* The two start-up crashes found by audit D on tree a3b3ae1, now refusals; the last conjunct is the start loop run on
+   the configuration although a requirement is violated = what happened while Configure did not check the value. *)
+Example C19_old_workers :
+  requirements ex_bad_workers = [(StorageWorkers, 1)] /\
+  start (canonical_order ex_bad_workers) ex_bad_workers fresh_app = Returned 1 nothing_started no_listener /\
+  start_list (canonical_order ex_bad_workers) ex_bad_workers (coordinators ex_bad_workers) []
+    = Panicked (PanicError StorageWorkers 1).
+Proof. exact ex_bad_workers_refused. Qed.
+
+Example C19_old_refresh :
+  requirements ex_bad_refresh = [(ClusterRefresh, 5)] /\
+  start (canonical_order ex_bad_refresh) ex_bad_refresh fresh_app = Returned 1 nothing_started no_listener /\
+  start_list (canonical_order ex_bad_refresh) ex_bad_refresh (coordinators ex_bad_refresh) []
+    = Panicked (PanicString ClusterRefresh 5).
+Proof. exact ex_bad_refresh_refused. Qed.
